@@ -182,7 +182,7 @@ func runAll(rep *vx.Report, cases []aCase, batch int, crashClause string) {
 func checkC17(tier string) int {
 	rep := vx.NewReport("C17", tier, "exploration")
 	rep.Assumptions = []string{"the identity is whatever the configured ACL header carries (nsqadmin trusts its reverse proxy)", "real loopback stub upstreams, no controlled scheduler: the decision is made before any upstream call, so nothing is scheduling-dependent"}
-	rep.Rule = "E5: every route of nsqadmin's HTTP server (state-changing and read-only) x body {valid action for that route, invalid} x identity {absent, empty, non-admin, admin, case variant, trailing space, list, prefixed} x admin list {[], [admin], [admin, root]} x ACL header {default, custom, identity sent under the other header name}; /config GET/PUT x remote address x allowed CIDR. Stub nsqd/nsqlookupd upstreams record every request. distinct = distinct (route class, status, upstream writes) outcomes"
+	rep.Rule = "E5: every route of nsqadmin's HTTP server (state-changing and read-only) x body {valid action for that route, invalid} x identity {absent, empty, non-admin, admin, case variant, trailing space, list, prefixed} x admin list {[], [admin], [admin, root]} x ACL header {default, custom, identity sent under the other header name}; /config GET/PUT x remote address x allowed CIDR. admin actions also with one or both nsqlookupd stubs failing (500, refused). Stub nsqd/nsqlookupd upstreams record every request. distinct = distinct (route class, status, upstream writes) outcomes"
 	var cases []aCase
 	type rt struct{ route, good, bad string }
 	routes := []rt{
@@ -215,6 +215,18 @@ func checkC17(tier string) int {
 					cases = append(cases, aCase{"acl", mustJSON(nsqadmin.ACLSpec{Route: r.route, Body: b, Identity: id, AdminUsers: al, SendAs: "X-Auth-User"})})
 				}
 			}
+		}
+	}
+	// admin actions while nsqlookupds fail (one of two, both)
+	for _, r := range routes {
+		if strings.HasPrefix(r.route, "GET") || r.route == "POST /api/topics" {
+			continue
+		}
+		for _, lh := range [][]string{{"ok", "500"}, {"500", "ok"}, {"ok", "refused"}, {"500", "500"}, {"refused", "refused"}, {"refused", "500"}} {
+			for _, al := range adminLists {
+				cases = append(cases, aCase{"acl", mustJSON(nsqadmin.ACLSpec{Route: r.route, Body: r.good, Identity: "admin", AdminUsers: al, LkHealth: lh})})
+			}
+			cases = append(cases, aCase{"acl", mustJSON(nsqadmin.ACLSpec{Route: r.route, Body: r.good, Identity: "alice", AdminUsers: []string{"admin"}, LkHealth: lh})})
 		}
 	}
 	nACL := len(cases)
